@@ -37,7 +37,7 @@ def run(ctx):
         ctx.confirm_and_raise("Trace_C19", rej)
     # 3. random larger graphs
     ev = ctx.work / "events_random.ndjson"
-    ctx.dsv("C19", "drive", "--out", ev, "--graphs", 400 if ctx.quick else 4000)
+    ctx.dsv("C19", "drive", "--out", ev, "--graphs", 400 if ctx.quick else 4000, "--layered", 2500 if ctx.quick else 40000)
     count_nontrivial(ctx, ev)
     rej = ctx.validate("Trace_C19", ev, shard=150)
     ctx.confirm_and_raise("Trace_C19", rej)
